@@ -189,7 +189,7 @@ def uint_cases(rng, bits):
 
 
 def gen(rng, tier):
-    n_cases = 30000 if tier == 'quick' else 1500000
+    n_cases = 30000 if tier == 'quick' else 5000000
     # BITS = 0: the wrappers return ZERO before touching anything
     yield 'umulredc 0 0 0 0 0'
     yield 'usqredc 0 0 0 0'
